@@ -514,6 +514,10 @@ class Ctx(object):
             path, nq = pq
             cmd = 'ulimit -s unlimited 2>/dev/null; timeout %d coqc -Q %s Supp %s' % (timeout, COQ, path)
             rc, out = sh(['bash', '-c', cmd], cwd=self.scratch, timeout=timeout + 30)
+            if rc == 124:
+                # evaluation only (no search): a time-out here is machine load, retry once with a wide margin
+                cmd = 'ulimit -s unlimited 2>/dev/null; timeout %d coqc -Q %s Supp %s' % (4 * timeout, COQ, path)
+                rc, out = sh(['bash', '-c', cmd], cwd=self.scratch, timeout=4 * timeout + 30)
             if rc != 0:
                 raise RuntimeError('coqc failed on %s (rc=%d):\n%s' % (path, rc, out[-3000:]))
             vals = split_eval_output(out)
